@@ -332,6 +332,9 @@ class C20Executor(Executor):
                 if cur is not None and (isinstance(cur, VBytes) or self._is_symb(cur)):
                     carried.append(name)
         super().havoc_loop_state(st, body, spec, extra_names)
+        if not self.abstract and getattr(getattr(self, "contract", None), "role", "") in DRIVERS and self.inline_depth == 0:
+            # from here on the path depends on an invariant this pack inferred: a VC refuted on it is `unknown` (verify.discharge)
+            st.assume(z3.Bool("__havoc__@loop cut by an invariant inferred from the roles of the locals"))
         for r, o in sym.items():
             # content AND length are arbitrary after the havoc (a buffer may grow); the loop invariant says what the length is
             ln = z3.Int(fresh_name("out_len"))
